@@ -9,6 +9,7 @@ CONSTANTS
   MaxKids = 1
   MaxChunks = 1
   MinMaxPropagation = TRUE
+  StreamsAwaited = TRUE
 VIEW view
 INVARIANT TypeOK
 INVARIANT PointerIsScope
